@@ -61,7 +61,7 @@ func ZZ_C14_Local() {
 	script.OnWait = func() {
 		switch {
 		case wait == 0:
-			rl.line.Set(b...)
+			rl.line.Set(zzCopy(b)...)
 			rl.cursor.Set(p)
 			for i := 0; i < k; i++ {
 				script.Chunks = append(script.Chunks, []byte("\t"))
